@@ -45,6 +45,7 @@ def jobs(tier):
                     out.append(("v%d.%s.P16384.%s.%s" % (version, shape, "-".join(k[0] for k in dmg), cpath), "job_recheck",
                                 dict(prop="C16", version=version, shape=shape, P=16384, K=1, dmg=dmg, source="ref", cpath=cpath)))
         out.append(("v%d.flat2.same-checker-twice" % version, "job_twice", dict(version=version)))
+    out.extend(rk.matrix_rows(tier, "C16"))
     # a v1 file list in an order other tools write: the files of one directory are not next to each other
     for dmg in (["intact", "intact", "intact"], ["intact", "flip", "intact"], ["missing", "intact", "intact"], ["intact", "intact", "trunc"]):
         for cpath in ("root", "parent"):
